@@ -136,6 +136,34 @@ func OLEHostile() [][]byte {
 			}
 		}
 	}
+	// every 16-bit field of the header's fixed part (minor / major version, byte order,
+	// sector shift, mini sector shift) with every value 0-70 and the extremes, crossed
+	// with first-directory sector ids whose products with a power of two wrap around
+	for _, major := range []uint16{3, 4} {
+		for _, off := range []int{24, 26, 28, 30, 32} {
+			for v := 0; v <= 75; v++ {
+				val := uint16(v)
+				if v > 70 {
+					val = []uint16{0xFF, 0x7FFF, 0x8000, 0xFFFE, 0xFFFF}[v-71]
+				}
+				for _, sec := range []uint32{0, 1, 2, 3, 7, 0x7FFFFFFF, 0x80000000, 0xFFFFFFFE, 0xFFFFFFFF} {
+					for _, n := range []int{512, 640, 4704} {
+						b := make([]byte, n)
+						copy(b, magic)
+						binary.LittleEndian.PutUint16(b[24:], 0x3E)
+						binary.LittleEndian.PutUint16(b[26:], major)
+						binary.LittleEndian.PutUint16(b[28:], 0xFFFE)
+						binary.LittleEndian.PutUint16(b[30:], 9)
+						binary.LittleEndian.PutUint16(b[32:], 6)
+						binary.LittleEndian.PutUint16(b[off:], val)
+						binary.LittleEndian.PutUint32(b[48:], sec)
+						copy(b[n-100:], clsid)
+						out = append(out, b)
+					}
+				}
+			}
+		}
+	}
 	return out
 }
 
